@@ -14,6 +14,7 @@ import (
 	"encoding/binary"
 	"errors"
 	"hash/crc32"
+	"math"
 	"time"
 )
 
@@ -39,6 +40,21 @@ const (
 
 	// BlockHeaderSize is the fixed size of each block header
 	BlockHeaderSize = 16
+
+	// MaxKeySize is the longest key an entry can carry: the key length is stored in 16 bits.
+	MaxKeySize = math.MaxUint16
+
+	// MaxDataSize is the largest entry payload: the data length is stored in 32 bits.
+	MaxDataSize = math.MaxUint32
+
+	// MaxSwampNameSize is the longest swamp name a V3 header can describe (16-bit NameLength).
+	MaxSwampNameSize = math.MaxUint16
+
+	// MaxEntriesPerBlock is the largest entry count a block header can describe (16-bit EntryCount).
+	MaxEntriesPerBlock = math.MaxUint16
+
+	// MaxBlockDataSize bounds the serialized and the compressed size of one block (32-bit fields).
+	MaxBlockDataSize = math.MaxUint32
 )
 
 // Operation types for entries
@@ -58,6 +74,10 @@ var (
 	ErrEmptyKey          = errors.New("entry key cannot be empty")
 	ErrFileClosed        = errors.New("file is closed")
 	ErrCompactionRunning = errors.New("compaction is already running")
+	ErrKeyTooLong        = errors.New("entry key is longer than 65535 bytes")
+	ErrDataTooLarge      = errors.New("entry data is larger than 4 GiB - 1")
+	ErrSwampNameTooLong  = errors.New("swamp name is longer than 65535 bytes")
+	ErrBlockTooLarge     = errors.New("block does not fit the block header fields")
 )
 
 // FileHeader represents the header at the beginning of each .hyd file.
@@ -289,6 +309,22 @@ func (e *Entry) Deserialize(buf []byte) (int, error) {
 	offset += dataLen
 
 	return offset, nil
+}
+
+// Validate reports whether the entry can be stored so that it reads back unchanged:
+// the key must have 1..MaxKeySize bytes and the data at most MaxDataSize bytes, because
+// their lengths are stored in 16 and 32 bits. The writer refuses anything else.
+func (e *Entry) Validate() error {
+	if len(e.Key) == 0 {
+		return ErrEmptyKey
+	}
+	if len(e.Key) > MaxKeySize {
+		return ErrKeyTooLong
+	}
+	if uint64(len(e.Data)) > MaxDataSize {
+		return ErrDataTooLarge
+	}
+	return nil
 }
 
 // Size returns the serialized size of the entry
